@@ -147,6 +147,20 @@ def directed_registry_cases(rng, n):
                 fail = (f"Derived(text='bb') (comparable value=2) gets id {again.id} next to a live Derived(text='a') (value=1) "
                         f"but {id0} when created alone: no registered node has the same comparable content")
             del other, again
+        # (g) ids of nodes whose string properties are built from the digest framing itself (escape character, closing bracket,
+        #     the separator between two properties): all contents differ, all nodes are alive at once, so no id may carry a
+        #     collision suffix ("a node created while no registered node has the same ... comparable content gets the same id")
+        if fail is None and _ == 0:
+            from props.c01 import framing_tokens
+            gc.collect()
+            NODE_REGISTRY.clear()
+            toks = framing_tokens("):b=<class 'str'>(")
+            alive = [zoo.Two(a=x, b=y) for x in toks for y in toks]
+            suff = [n for n in alive if "_" in n.id]
+            if suff:
+                fail = (f"Two(a={suff[0].a!r}, b={suff[0].b!r}) got the suffixed id {suff[0].id} although no registered node has the "
+                        f"same content ({len(suff)} of {len(alive)} nodes)")
+            del alive, suff
         # (d) a live child in a field typed as a union of unrelated classes (non-first member) below an unregistered
         #     parent: deserializing the parent's payload re-uses the child and never evicts it
         if fail is None:
